@@ -58,6 +58,12 @@ def dotdot(bases, name):
     return [m for b in bases for m in all_nodes(b, name)]
 
 
+def proper_dotdot(bases, name):
+    """`<A>..<B>` as documented (docs/Paths.md: <B> is a child of <A>, or a descendant of one of <A>'s children): the base itself is
+    not its own descendant -- differs from dotdot only when the base carries the selected symbol"""
+    return [m for b in bases for c in kids(b) for m in all_nodes(c, name)]
+
+
 def truthy_all(combos, fn):
     """every combination truthy; a raising combination fails"""
     for c in combos:
@@ -146,6 +152,7 @@ def P_nest():
         ("str(<n>.<n>[0]) != '2'", lambda t: truthy_all([(kids(m)[0],) for m in dot(N(t), "<n>")], lambda m: str(m) != "2")),
         ("len(*<start>.<n>) == 1", lambda t: len(dot(S(t), "<n>")) == 1),
         ("len(*<start>..<n>) <= 2", lambda t: len(dotdot(S(t), "<n>")) <= 2),
+        ("|<n>..<n>| == 3", lambda t: len(proper_dotdot(N(t), "<n>")) == 3),
         ("str(<start>.<n>.<d>) == '1'", lambda t: truthy_all([(m,) for m in dot(dot(S(t), "<n>"), "<d>")], lambda m: str(m) == "1")),
     ]
 
